@@ -225,7 +225,13 @@ def body(ch, ctx):
     if keys != "default":
         kw.update(gtf_transcript_key=tk, gtf_gene_key=gk, gtf_subfeature=sub, id_spec={"gene": gk, "transcript": tk})
     path = dbutil.write_text(ctx.fresh_dir(), ("in.gtf", "annot.gff", "x.gff3", "data.txt")[(ci + si) % 4], "\n".join(texts) + "\n")
-    db = gffutils.create_db(path, ":memory:", **kw)
+    if order == "identity":
+        # a file database, closed and opened again before anything is asked: what is derived must have been stored
+        dbfn = os.path.join(os.path.dirname(path), "o.db")
+        dbutil.close_db(gffutils.create_db(path, dbfn, **kw))
+        db = gffutils.FeatureDB(dbfn)
+    else:
+        db = gffutils.create_db(path, ":memory:", **kw)
     got = {f.id: (f.featuretype, f.seqid, f.start, f.end, f.strand) for f in db.all_features()}
     if not ctx.check(db.dialect["fmt"] == "gtf", "not-imported-as-gtf", sig, file=texts):
         return
